@@ -53,6 +53,14 @@ impl MagicTable {
     }
 }
 
+/// Verification hook: the build-time magic entries as (mask, magic, shift, offset),
+/// rooks first, and the two table sizes.
+#[cfg(chess_verif)]
+pub fn magic_entries_for_verif() -> (Vec<(u64, u64, u8, u32)>, Vec<(u64, u64, u8, u32)>, usize, usize) {
+    let f = |m: &[MagicEntry; 64]| m.iter().map(|e| (e.mask, e.magic, e.shift, e.offset)).collect();
+    (f(ROOK_MAGICS), f(BISHOP_MAGICS), ROOK_TABLE_SIZE, BISHOP_TABLE_SIZE)
+}
+
 fn make_table(
     table_size: usize,
     slider_deltas: &[(i8, i8)],
